@@ -354,4 +354,34 @@ def r6(ctx):
     repo_idioms(ctx, "C05.R6", ("connection", "client"))
 
 
-RULES = [("C05.R6", r6), ("C05.R1", r1), ("C05.R2", r2), ("C05.R3", r3), ("C05.R4", r4), ("C05.R5", r5)]
+def r7(ctx, RULE="C05.R7"):
+    """receiver side: a partially reassembled message must survive until it is complete - a guaranteed sender keeps
+    retransmitting a lost fragment (once per message timeout), so any discard of an *incomplete* reassembly context turns
+    'delayed' into 'silently lost' while every fragment is acknowledged at the datagram level"""
+    fi = ctx.fn("connection:ConnectionBase._recvAppFragment")
+    cfg = cfg_of(fi)
+    dels = [n for n in cfg.stmts((ast.Delete,)) if norm(n.ast.targets[0]).startswith("self.received_fragments[")]
+    deliver = [cfg.node_of(c) for c in calls_named(fi, "_recvApp")]
+    recv = [cfg.node_of(c) for c in calls_named(fi, "receive")]
+    if not ctx.require(RULE, fi, "fragment store `.receive(...)` and delivery `_recvApp(...)` in _recvAppFragment", min(len(deliver), len(recv)), 1):
+        return
+    for d in dels:
+        after_delivery = any(cfg.dominates(x.id, d.id) for x in deliver)
+        if after_delivery:
+            ctx.holds(RULE, fi, d.ast, "the context of a delivered message is removed")
+            continue
+        # a discard that is not dominated by the delivery of that context: is it at least restricted to complete / finished contexts?
+        conds = [(norm(t), p) for (t, p) in cfg.conditions_of(d.id)]
+        guarded = any(("isComplete()" in t and p) for (t, p) in conds)
+        ctx.check(guarded, RULE, fi, d.ast, "a reassembly context is discarded only after its message was delivered",
+                  witness={"path": "expired() -> del received_fragments[key] without isComplete()/delivery: a guaranteed fragmented message whose fragments "
+                                   "take longer than 1.0 + 0.5*count seconds (for example one fragment lost twice) is purged when any other fragment arrives; "
+                                   "the late fragment then opens a fresh context that can never complete, the sender still sees every fragment acked"},
+                  line=d.lineno)
+        # whatever the expiry policy is, it must not run before the arriving fragment was stored and its completion was checked
+        ok = all(cfg.dominates(x.id, d.id) for x in recv)
+        ctx.check(ok, RULE, fi, "expiry runs after the arriving fragment was stored", "purging first would discard the very context the arriving (re-sent) fragment completes",
+                  line=d.lineno)
+
+
+RULES = [("C05.R6", r6), ("C05.R1", r1), ("C05.R2", r2), ("C05.R3", r3), ("C05.R4", r4), ("C05.R5", r5), ("C05.R7", r7)]
